@@ -14,6 +14,7 @@ Oracle:
   cross-tool     -> same verdict and the same multiset of (line, PE code) as check-express.
 Keys: `<fault class> x <tool>|<symptom>`.
 """
+LEVEL = 'fault_enumeration'
 from .. import c04_faults as F
 from .. import c04_run as R
 from .. import run
